@@ -4,6 +4,76 @@ import CaresLemmas.ChanWfRemove
 -/
 namespace Cares.Chan
 
+/-! ### the progress relation -/
+
+theorem forall2_sub_refl (l : List (List Nat)) : LcSub l l := by
+  induction l with
+  | nil => exact LcSub.nil
+  | cons x r ih => exact LcSub.cons (fun _ h => h) ih
+
+theorem forall2_sub_trans {a b c : List (List Nat)} (h1 : LcSub b a) (h2 : LcSub c b) : LcSub c a := by
+  induction h2 generalizing a with
+  | nil => cases h1; exact LcSub.nil
+  | cons hx _ ih =>
+    cases h1 with
+    | cons hy ht => exact LcSub.cons (fun k hk => hy k (hx k hk)) (ih ht)
+
+theorem LcSub.length {a b : List (List Nat)} (h : LcSub a b) : a.length = b.length := by
+  induction h with
+  | nil => rfl
+  | cons _ _ ih => simp [ih]
+
+theorem ProgS.refl (xt) (a : Sk) : ProgS xt a a where
+  doneMono := fun _ h => h
+  lcRel := forall2_sub_refl _
+  allNew := fun _ h => Or.inl h
+  keysLt := fun h => h
+  ownKeep := fun _ _ hp _ => hp
+  done6 := fun _ _ _ h hn => absurd h hn
+
+theorem ProgS.trans {xt} {a b c : Sk} (h1 : ProgS xt a b) (h2 : ProgS xt b c) (hk : a.nextKey ≤ b.nextKey)
+    (hi : ∀ x ∈ c.idx, x ∈ b.idx ∨ b.nextKey ≤ x) : ProgS xt a c where
+  doneMono := fun t h => h2.doneMono t (h1.doneMono t h)
+  lcRel := forall2_sub_trans h1.lcRel h2.lcRel
+  allNew := fun k h => by
+    rcases h2.allNew k h with h | h
+    · exact h1.allNew k h
+    · exact Or.inr (Nat.le_trans hk h)
+  keysLt := fun h => h2.keysLt (h1.keysLt h)
+  ownKeep := fun hl p hp hpi => by
+    rcases hi _ hpi with h | h
+    · exact h2.ownKeep (h1.keysLt hl) p (h1.ownKeep hl p hp h) hpi
+    · have := hl p hp; omega
+  done6 := fun hl p hp hpi hn tok ho => by
+    by_cases hb : p.1 ∈ b.idx
+    · exact h2.done6 (h1.keysLt hl) p (h1.ownKeep hl p hp hb) hb hn tok ho
+    · rcases h1.done6 hl p hp hpi hb tok ho with h | h
+      · exact Or.inl (h2.doneMono tok h)
+      · exact Or.inr h
+
+theorem ProgS.weaken {xt} {a b : Sk} (h : ProgS none a b) : ProgS xt a b where
+  doneMono := h.doneMono
+  lcRel := h.lcRel
+  allNew := h.allNew
+  keysLt := h.keysLt
+  ownKeep := h.ownKeep
+  done6 := fun hl p hp hpi hn tok ho => by
+    rcases h.done6 hl p hp hpi hn tok ho with h' | h'
+    · exact Or.inl h'
+    · cases h'
+
+/-- a step that leaves the request bookkeeping alone -/
+theorem ProgS.of_same {xt} {a b : Sk} (hd : ∀ t ∈ a.doneToks, t ∈ b.doneToks) (hl : b.listCopy = a.listCopy)
+    (ha : b.all = a.all) (hnk : b.nextKey = a.nextKey) (hq : b.qKO = a.qKO) (hi : b.idx = a.idx) : ProgS xt a b where
+  doneMono := hd
+  lcRel := by rw [hl]; exact forall2_sub_refl _
+  allNew := fun k h => Or.inl (ha ▸ h)
+  keysLt := fun h => by rw [hq, hnk]; exact h
+  ownKeep := fun _ p hp _ => by rw [hq]; exact hp
+  done6 := fun _ p _ hpi hn => absurd (hi ▸ hpi) hn
+
+/-! ### the two-state relation -/
+
 theorem StepS.refl (xf xi d) (a : Sk) : StepS xf xi d a a where
   faults := rfl
   kMono := Nat.le_refl _
@@ -12,9 +82,10 @@ theorem StepS.refl (xf xi d) (a : Sk) : StepS xf xi d a a where
   unl := fun _ q h _ => ⟨q, h, fun _ hk => hk⟩
   orphan := fun _ _ _ h => h
   debtAlive := fun _ h _ => h
+  prog := ProgS.refl _ _
 
-theorem StepS.trans {xf xi d} {a b c : Sk} (h1 : StepS xf xi d a b) (h2 : StepS xf xi d b c) :
-    StepS xf xi d a c where
+theorem StepT.trans {xf xi xt d} {a b c : Sk} (h1 : StepT xf xi xt d a b) (h2 : StepT xf xi xt d b c) :
+    StepT xf xi xt d a c where
   faults := h2.faults.trans h1.faults
   kMono := Nat.le_trans h1.kMono h2.kMono
   keyMono := Nat.le_trans h1.keyMono h2.keyMono
@@ -29,11 +100,15 @@ theorem StepS.trans {xf xi d} {a b c : Sk} (h1 : StepS xf xi d a b) (h2 : StepS 
   orphan := fun id hid hx hn =>
     h2.orphan id (Nat.lt_of_lt_of_le hid h1.kMono) hx (h1.orphan id hid hx hn)
   debtAlive := fun id ha hd => h2.debtAlive id (h1.debtAlive id ha hd) hd
+  prog := h1.prog.trans h2.prog h1.keyMono h2.idxNew
+
+theorem StepS.trans {xf xi d} {a b c : Sk} (h1 : StepS xf xi d a b) (h2 : StepS xf xi d b c) :
+    StepS xf xi d a c := StepT.trans h1 h2
 
 /-- exceptions may be added, the debt may be lowered -/
-theorem StepS.weaken {xf xi d xf' xi' d'} {a b : Sk} (h : StepS xf xi d a b)
-    (hf : xf = none ∨ xf = xf') (hi : xi = none ∨ xi = xi') (hd : ∀ id, d' id ≤ d id) :
-    StepS xf' xi' d' a b where
+theorem StepT.weaken {xf xi xt d xf' xi' xt' d'} {a b : Sk} (h : StepT xf xi xt d a b)
+    (hf : xf = none ∨ xf = xf') (hi : xi = none ∨ xi = xi') (ht : xt = none ∨ xt = xt') (hd : ∀ id, d' id ≤ d id) :
+    StepT xf' xi' xt' d' a b where
   faults := h.faults
   kMono := h.kMono
   keyMono := h.keyMono
@@ -47,15 +122,28 @@ theorem StepS.weaken {xf xi d xf' xi' d'} {a b : Sk} (h : StepS xf xi d a b)
     · rw [hi]; exact fun hh => by cases hh
     · rw [hi]; exact hx) hn
   debtAlive := fun id ha hpos => h.debtAlive id ha (Nat.lt_of_lt_of_le hpos (hd id))
+  prog := by
+    rcases ht with ht | ht
+    · subst ht; exact h.prog.weaken
+    · subst ht; exact h.prog
+
+theorem StepS.weaken {xf xi d xf' xi' d'} {a b : Sk} (h : StepS xf xi d a b)
+    (hf : xf = none ∨ xf = xf') (hi : xi = none ∨ xi = xi') (hd : ∀ id, d' id ≤ d id) :
+    StepS xf' xi' d' a b := StepT.weaken h hf hi (Or.inl rfl) hd
 
 theorem StepS.weaken' {xf xi d} {a b : Sk} (h : StepS none none d a b) : StepS xf xi d a b :=
   h.weaken (Or.inl rfl) (Or.inl rfl) (fun _ => Nat.le_refl _)
 
+theorem StepS.toT {xf xi xt d} {a b : Sk} (h : StepS xf xi d a b) : StepT xf xi xt d a b :=
+  StepT.weaken h (Or.inr rfl) (Or.inr rfl) (Or.inl rfl) (fun _ => Nat.le_refl _)
+
 /-- a step that leaves the ownership projections alone only has to account for the connection lists -/
 theorem StepS.of_same {xf xi d} {a b : Sk} (hf : b.faults = a.faults) (hk : b.nextClient = a.nextClient)
-    (hnk : b.nextKey = a.nextKey) (hq : b.qKO = a.qKO) (hi : b.idx = a.idx) (hc : b.clients = a.clients) (hp : b.pendingToks = a.pendingToks)
-    (hu : ∀ fd q, (fd, true, q) ∈ a.cFUQ → some fd ≠ xf → ∃ q', (fd, true, q') ∈ b.cFUQ ∧ ∀ k ∈ q', k ∈ q) :
-    StepS xf xi d a b where
+    (hnk : b.nextKey = a.nextKey) (hq : b.qKO = a.qKO) (hi : b.idx = a.idx) (hc : b.clients = a.clients)
+    (hp : b.pendingToks = a.pendingToks)
+    (hu : ∀ fd q, (fd, true, q) ∈ a.cFUQ → some fd ≠ xf → ∃ q', (fd, true, q') ∈ b.cFUQ ∧ ∀ k ∈ q', k ∈ q)
+    (hd : b.doneToks = a.doneToks := by rfl) (hl : b.listCopy = a.listCopy := by rfl)
+    (ha : b.all = a.all := by rfl) : StepS xf xi d a b where
   faults := hf
   kMono := by rw [hk]; exact Nat.le_refl _
   keyMono := by rw [hnk]; exact Nat.le_refl _
@@ -63,6 +151,7 @@ theorem StepS.of_same {xf xi d} {a b : Sk} (hf : b.faults = a.faults) (hk : b.ne
   unl := hu
   orphan := fun id _ _ hn => by unfold Sk.NoSub at *; rw [hq, hi]; exact hn
   debtAlive := fun id ha _ => by unfold Sk.Active at *; rw [hc, hp]; exact ha
+  prog := ProgS.of_same (fun t h => hd ▸ h) hl ha hnk hq hi
 
 theorem DebtOk.congr {x d} {a b : Sk} (h : DebtOk x d a) (hk : b.nextClient = a.nextClient)
     (hq : b.qKO = a.qKO) (hi : b.idx = a.idx) (hc : b.clients = a.clients) (hp : b.pendingToks = a.pendingToks) :
@@ -88,7 +177,8 @@ theorem WfS.weaken_hole {a : Sk} {hole : Option Nat} (h : WfS a none) : WfS a ho
 
 theorem step_rfc {xf xi d} {a : Sk} {hole} {k : Nat} {e : QSk} (_h : WfS a hole) (hq : a.q? k = some e) :
     StepS xf xi d a (a.removeFromConn k) := by
-  refine StepS.of_same (by simp) (by simp) (by simp) (by simp) (by simp) (by simp) (by simp) ?_
+  refine StepS.of_same (by simp) (by simp) (by simp) (by simp) (by simp) (by simp) (by simp) ?_ (by simp) (by simp)
+    (by simp)
   intro fd q hm _
   rw [rfc_cFUQ hq]
   by_cases hcf : some fd = e.conn
